@@ -22,6 +22,7 @@ package vault
 //vx:redirect (*github.com/openbao/go-kms-wrapping/v2/aead.Wrapper).Encrypt vxKWrapEncrypt
 //vx:redirect (*github.com/openbao/go-kms-wrapping/v2/aead.Wrapper).Decrypt vxKWrapDecrypt
 //vx:redirect (github.com/openbao/go-kms-wrapping/v2.WrapperType).String vxKTypeString
+//vx:redirect (*github.com/openbao/openbao/v2/internal/vault.SealManager).namespaceBarrier vxKNamespaceBarrier
 //vx:noop github.com/hashicorp/go-metrics/compat.*
 //vx:noop github.com/openbao/openbao/v2/internal/vault/barrier.termLabel
 //vx:unwind 200
@@ -36,6 +37,7 @@ import (
 	"github.com/openbao/go-kms-wrapping/v2/aead"
 	"github.com/openbao/openbao/sdk/v2/logical"
 	"github.com/openbao/openbao/sdk/v2/physical"
+	"github.com/openbao/openbao/v2/internal/helper/namespace"
 	"github.com/openbao/openbao/v2/internal/vault/barrier"
 	"github.com/openbao/openbao/v2/internal/vault/seal"
 	"google.golang.org/protobuf/proto"
@@ -206,6 +208,32 @@ func vxKNode(phys *vxKPhys, kek []byte) (*Core, *defaultSeal, barrier.SecurityBa
 	return c, s, b
 }
 
+// a separately sealed namespace: its barrier and seal keep their own records below the namespace's storage prefix
+var vxKNS = &namespace.Namespace{ID: "n1", UUID: "u1", Path: "n1/"}
+
+func vxKNodeNS(phys *vxKPhys, kek []byte) (*Core, *defaultSeal, barrier.SecurityBarrier) {
+	b := barrier.NewAESGCMBarrier(phys, vxKNS)
+	w := &seal.ShamirWrapper{Wrapper: &aead.Wrapper{}}
+	vxKSetKey(w.Wrapper, kek)
+	c := &Core{logger: vxKLogger{}, physical: phys, barrier: b}
+	s := &defaultSeal{core: c, access: seal.NewAccess(w)}
+	s.SetConfigAccess(b)
+	s.SetMetaPrefix(NamespaceStoragePathPrefix(vxKNS))
+	return c, s, b
+}
+
+func vxKUnsealWithNS(phys *vxKPhys, kek []byte) (barrier.SecurityBarrier, bool) {
+	_, s, b := vxKNodeNS(phys, kek)
+	keys, err := s.GetStoredKeys(context.Background())
+	if err != nil || len(keys) != 1 {
+		return nil, false
+	}
+	if b.Unseal(context.Background(), keys[0]) != nil {
+		return nil, false
+	}
+	return b, true
+}
+
 // the unseal procedure of a restarted node: unseal key -> stored root key -> barrier
 func vxKUnsealWith(phys *vxKPhys, kek []byte) (barrier.SecurityBarrier, bool) {
 	_, s, b := vxKNode(phys, kek)
@@ -270,4 +298,79 @@ func VxBarrierRekeyCrash() {
 		vxAssert("and earlier data is readable after the crash", vxKReadable(bOld, val))
 	}
 	_ = bNew
+}
+
+// the same operation for a separately sealed namespace: SealManager.performRootRotation (rotate.go) has the shape of
+// performBarrierRekey - stored root key under the NEW unseal key, root-key rotation, new seal key, seal configuration,
+// as separate writes - and is checked the same way.
+var vxKNSBarrier barrier.SecurityBarrier
+
+func vxKNamespaceBarrier(sm *SealManager, nsPath string) barrier.SecurityBarrier { return vxKNSBarrier }
+
+func VxNamespaceRootRotationCrash() {
+	ctx := context.Background()
+	phys := &vxKPhys{crashAt: -1}
+	oldKEK, newKEK := vxBytes("old unseal key", 32), vxBytes("new unseal key", 32)
+	vxAssume(!vxKEq(oldKEK, newKEK))
+	root := vxBytes("root key", 32)
+	c, s, b := vxKNodeNS(phys, oldKEK)
+	vxAssert("initialize ok", b.Initialize(ctx, root, nil) == nil)
+	vxAssert("unseal ok", b.Unseal(ctx, root) == nil)
+	vxAssert("stored keys ok", s.SetStoredKeys(ctx, [][]byte{root}) == nil)
+	val := vxBytes("value", 2)
+	vxAssert("write ok", b.Put(ctx, &logical.StorageEntry{Key: "secret/a", Value: val}) == nil)
+	// a record of the ROOT namespace that happens to have the same name as one of the namespace's own records
+	rootRecord := []byte("root namespace's own shamir-kek record")
+	phys.keys, phys.vals = append(phys.keys, barrier.ShamirKekPath), append(phys.vals, rootRecord)
+	sm := &SealManager{core: c, logger: vxKLogger{}}
+	vxKNSBarrier = b
+	cfg := &SealConfig{SecretShares: 1, SecretThreshold: 1, Nonce: "n"}
+	_, sane := vxKUnsealWithNS(phys, oldKEK)
+	vxAssert("before the rotation the old unseal key opens the namespace", sane)
+
+	w0 := phys.writes
+	crash := vxChoose("crash after k writes of the rotation (8 = no crash)", 9)
+	if crash < 8 {
+		phys.crashAt = phys.writes + crash
+	}
+	l0 := len(phys.log)
+	rerr := sm.performRootRotation(ctx, vxKNS, newKEK, cfg, s)
+	nwrites := phys.writes - w0
+	for _, op := range phys.log[l0:] {
+		vxAssert("a namespace's root rotation writes only below that namespace's storage prefix", vxKUnderNS(op))
+	}
+	ri := phys.find(barrier.ShamirKekPath)
+	vxAssert("records of the root namespace are left alone by a namespace's rotation", ri >= 0 && vxKEq(phys.vals[ri], rootRecord))
+	vxAssert("rotation reports success", rerr == nil)
+	completed := crash == 8 || crash >= nwrites
+	phys.crashAt = -1
+	bOld, okOld := vxKUnsealWithNS(phys, oldKEK)
+	bNew, okNew := vxKUnsealWithNS(phys, newKEK)
+	if completed {
+		vxReach("namespace rotation: completed")
+		vxAssert("after a completed rotation the new unseal key opens the namespace", okNew)
+		if okNew {
+			vxAssert("and earlier data is readable", vxKReadable(bNew, val))
+		}
+		vxAssert("after a completed rotation the old unseal key no longer opens the namespace", !okOld)
+		return
+	}
+	vxReach("namespace rotation: crashed inside")
+	vxAssert("a crash inside a namespace's root rotation leaves a namespace the old unseal key opens", okOld)
+	if okOld {
+		vxAssert("and earlier data is readable after the crash", vxKReadable(bOld, val))
+	}
+	_ = bNew
+}
+
+func vxKUnderNS(op string) bool {
+	// op = "put <key>" / "delete <key>"
+	for i := 0; i < len(op); i++ {
+		if op[i] == ' ' {
+			k := op[i+1:]
+			p := "namespaces/u1/"
+			return len(k) >= len(p) && k[:len(p)] == p
+		}
+	}
+	return false
 }
